@@ -80,7 +80,8 @@ def pfield(f, fdb: dict | None, raw_f: dict | None) -> dict:
 def phdr(msg) -> dict:
     ttl = msg.ttl
     return {"pgn": msg.PGN, "id": msg.id, "desc": msg.description,
-            "ttl": -1 if ttl is None else int(ttl / timedelta(milliseconds=1))}
+            # (anything but a timedelta is not the database's interval: -2 never matches)
+            "ttl": -1 if ttl is None else int(ttl / timedelta(milliseconds=1)) if isinstance(ttl, timedelta) else -2}
 
 
 def pmsg(msg, d: dict | None, raw_def: dict | None) -> dict:
